@@ -6,6 +6,8 @@
 -/
 import NngModel.Proofs.LifeAioStep
 import NngModel.Proofs.LifeStep
+import NngModel.Proofs.LifeGlobalStep
+import NngModel.Proofs.LifePend
 namespace Nng.C10
 open Nng.Life Nng.LifeModel
 
@@ -59,6 +61,125 @@ theorem probes_fail (st : State) : ∀ o ∈ (opProbe st).2, ∃ imm k i rvs, o 
   · exact ⟨false, .ctx, c.id, _, rfl, by decide⟩
   · exact ⟨false, .ep, e.idx, _, rfl, by decide⟩
   · exact ⟨false, .pipe, p.idx, _, rfl, by decide⟩
+
+
+/-! ### "socket closed ⇒ everything derived from it is gone", as a state invariant -/
+
+/-- In every reachable state, for every socket that is closed: all its endpoints are closed and idle
+    (nothing armed, no timer, no blocking dial waiting, no pipe), all its pipes are reaped — and every one
+    of them that got ADD_POST has got REM_POST (if a REM_POST callback was registered when it was
+    reaped) —, and all its contexts are closed. -/
+theorem closed_socket_all_gone (tr : List (LOp × List Nat)) (s : Nat) (hc : ((run {} tr).socks s).closed = true) :
+    (∀ e ∈ (run {} tr).eps, e.sock = s →
+        e.closed = true ∧ e.armed = false ∧ e.timer = none ∧ e.cool = none ∧ e.userAio = false ∧ e.dPipe = none) ∧
+    (∀ p ∈ (run {} tr).pipes, p.sock = s →
+        p.reaped = true ∧ (PEv.post ∈ p.evs → p.remReg = true → PEv.rem ∈ p.evs)) ∧
+    (∀ c ∈ (run {} tr).ctxs, c.sock = s → c.closed = true) := by
+  have inv := run_Inv tr {} init_Inv
+  have hepc : ∀ e ∈ (run {} tr).eps, e.sock = s → e.closed = true := by
+    intro e he hs
+    cases hcl : e.closed with
+    | true => rfl
+    | false =>
+      have := (inv.g.s.epsOpen e he hcl).2
+      rw [hs, hc] at this; cases this
+  refine ⟨?_, ?_, ?_⟩
+  · intro e he hs
+    have hcl := hepc e he hs
+    have h1 := (inv.g.s.w.epInv e he).1.closed_idle hcl
+    refine ⟨hcl, h1.1, h1.2.1, h1.2.2.1, h1.2.2.2, ?_⟩
+    cases hd : e.dPipe with
+    | none => rfl
+    | some i =>
+      obtain ⟨p, hp, _, hl, hpe⟩ := inv.g.s.w.has e he i hd
+      have := inv.g.s.pipesOpen p hp hl e he hpe.symm
+      rw [hcl] at this; cases this
+  · intro p hp hs
+    have hr : p.reaped = true := by
+      cases hl : p.reaped with
+      | true => rfl
+      | false =>
+        obtain ⟨e, he, hi⟩ := inv.g.s.w.idxE.exists (inv.g.s.w.pipeEp p hp)
+        have h1 := (inv.g.s.w.own p hp hl e he hi).1
+        have h2 := inv.g.s.pipesOpen p hp hl e he hi
+        have h3 := hepc e he (h1.trans hs)
+        rw [h2] at h3; cases h3
+    exact ⟨hr, (run_inv tr {} init_inv p hp).rem_due hr⟩
+  · intro c hcm hs
+    cases hcl : c.closed with
+    | true => rfl
+    | false =>
+      have := (inv.g.s.ctxsOpen c hcm hcl).2
+      rw [hs, hc] at this; cases this
+
+/-- "every pending operation completes" as a state invariant: in every reachable state nothing is parked
+    on a closed (or never opened) socket, on a closed context, or on a context of a closed socket -/
+theorem nothing_parked_on_closed (tr : List (LOp × List Nat)) (a : PAio) (ha : a ∈ (run {} tr).pend) :
+    (∀ s, a.tgt = .sock s → ((run {} tr).socks s).opened = true ∧ ((run {} tr).socks s).closed = false) ∧
+    (∀ c, a.tgt = .ctx c → ∃ x ∈ (run {} tr).ctxs, x.id = c ∧ x.closed = false ∧
+        ((run {} tr).socks x.sock).opened = true ∧ ((run {} tr).socks x.sock).closed = false) := by
+  have inv := run_Inv tr {} init_Inv
+  have hp := (run_P tr {} init_Inv init_P).pend a ha
+  constructor
+  · intro s hs; rw [hs] at hp; exact hp
+  · intro c hc
+    rw [hc] at hp
+    obtain ⟨x, hx, hxi, hxc⟩ := hp
+    exact ⟨x, hx, hxi, hxc, inv.g.s.ctxsOpen x hx hxc⟩
+
+/-- context numbers identify contexts in every reachable state -/
+theorem ctx_ids_unique (tr : List (LOp × List Nat)) :
+    ∀ a ∈ (run {} tr).ctxs, ∀ b ∈ (run {} tr).ctxs, a.id = b.id → a = b :=
+  (run_P tr {} init_Inv init_P).uniq
+
+/-- the close step of an open socket marks it closed ... -/
+theorem close_marks_closed (st : State) (s : Nat) (orc : List Nat) (hu : st.unmodelled = false)
+    (ho : (st.socks s).opened = true) (hc : (st.socks s).closed = false) :
+    ((step st (.close s) orc).1.socks s).closed = true := by
+  unfold step
+  simp only [hu, Bool.false_eq_true, if_false]
+  exact opClose_closed st s ho hc
+
+/-- ... hence right after `close s` (no later than that step), in whatever state it was issued: all
+    endpoints of `s` are closed and idle, all its pipes are reaped and every pipe that reached ADD_POST
+    got its REM_POST (if registered), all its contexts are closed, and nothing is parked on it -/
+theorem close_closes_everything (tr : List (LOp × List Nat)) (s : Nat) (orc : List Nat)
+    (hu : (run {} tr).unmodelled = false) (ho : ((run {} tr).socks s).opened = true)
+    (hc : ((run {} tr).socks s).closed = false) :
+    let st' := run {} (tr ++ [(.close s, orc)])
+    (∀ e ∈ st'.eps, e.sock = s →
+        e.closed = true ∧ e.armed = false ∧ e.timer = none ∧ e.cool = none ∧ e.userAio = false ∧ e.dPipe = none) ∧
+    (∀ p ∈ st'.pipes, p.sock = s → p.reaped = true ∧ (PEv.post ∈ p.evs → p.remReg = true → PEv.rem ∈ p.evs)) ∧
+    (∀ c ∈ st'.ctxs, c.sock = s → c.closed = true) ∧
+    (∀ a ∈ st'.pend, tgtSock st' a.tgt ≠ some s) := by
+  have hcl : ((run {} (tr ++ [(.close s, orc)])).socks s).closed = true := by
+    rw [run_append]; exact close_marks_closed _ s orc hu ho hc
+  have h := closed_socket_all_gone (tr ++ [(.close s, orc)]) s hcl
+  refine ⟨h.1, h.2.1, h.2.2, ?_⟩
+  have hst : run {} (tr ++ [(.close s, orc)]) = (fireTimers orc (opClose (run {} tr) s).1).1 := by
+    rw [run_append]
+    unfold step
+    simp only [hu, Bool.false_eq_true, if_false]
+    rfl
+  rw [hst]
+  exact opClose_drains (run {} tr) s ho hc
+
+
+/-- NOT PROVED (statement only): the C10 judge of Spec/Life.lean accepts every trace the model can
+    produce (same status as `Nng.C14.judge_accepts_model_statement`) -/
+def judge_accepts_model_statement : Prop :=
+  ∀ tr : List (LOp × List Nat), (judgeRun (modelTrace {} tr)).err10 = none
+
+/-- non-vacuity of `close_closes_everything`: an open socket with a listener, a connected pipe with all
+    notifications registered, and a parked receive -/
+def sampleClose : List (LOp × List Nat) :=
+  [(.openSock 0 "pull", []), (.notify 0 7 false, []), (.listen 0, []), (.connDone 0 (.ok 80), []), (.recv (.sock 0) 1, [])]
+
+example : ((run {} sampleClose).unmodelled, ((run {} sampleClose).socks 0).opened, ((run {} sampleClose).socks 0).closed,
+    (run {} sampleClose).pend.length) = (false, true, false, 1) := by decide
+example : (run {} (sampleClose ++ [(.close 0, [])])).pipes.map (fun p => (p.reaped, p.evs)) =
+    [(true, [.pre, .post, .rem])] := by decide
+example : (judgeRun (modelTrace {} (sampleClose ++ [(.close 0, [])]))).err10 = none := by decide
 
 
 /-! ### Part 2 — termination of close: a ranking argument
